@@ -156,9 +156,8 @@ fn oracle_xlsx_strict(case: &XCase) -> Report {
 fn run(ctx: &mut Ctx) {
     let n = ctx.n(3000, 60_000);
     ctx.run("xlsx", n, || xcase_strategy(40), oracle_xlsx);
-    if !ctx.quick() {
-        ctx.run("xlsx-long", 3000, || xcase_strategy(32_767), oracle_xlsx);
-    }
+    let n = ctx.n(40, 3000);
+    ctx.run("xlsx-long", n, || xcase_strategy(32_767), oracle_xlsx);
     let n = ctx.n(2500, 50_000);
     ctx.run("xlsb", n, || bin_case(40, 4), oracle_xlsb);
     let n = ctx.n(2500, 50_000);
@@ -168,10 +167,12 @@ fn run(ctx: &mut Ctx) {
     // shared-string indices beyond 16 bits (66k-entry tables): a few cases per run
     let n = ctx.n(2, 60);
     ctx.run("bigtable", n, big_table, oracle_big);
-    if !ctx.quick() {
-        ctx.run("xlsb-long", 1500, || bin_case(32_767, 4), oracle_xlsb);
-        ctx.run("xls-long", 1500, || bin_case(4000, 5), oracle_xls);
-    }
+    // long strings (records of 16 KiB and more need three length bytes in xlsb; SST strings cross
+    // several CONTINUE records in xls): a few in the quick tier, many in the thorough one
+    let n = ctx.n(40, 1500);
+    ctx.run("xlsb-long", n, || bin_case(32_767, 4), oracle_xlsb);
+    let n = ctx.n(40, 1500);
+    ctx.run("xls-long", n, || bin_case(4000, 5), oracle_xls);
     ctx.assumptions.push("xls: LABEL and STRING records hold at most 4000 units (one record); cuts never fall inside a surrogate pair. ods: runs of two or more spaces and edge spaces are written as text:s (a conformant consumer collapses literal ones); empty strings are not stored (indistinguishable from an empty cell)".into());
     ctx.assumptions.push("xlsx: strings are restricted to XML 1.0 characters; a string with edge white space is written with xml:space=\"preserve\"; the OOXML _xHHHH_ escape convention is not generated".into());
 }
